@@ -21,7 +21,7 @@ PROP = dict(
     assumptions=["IEEE-754 binary32/binary64 arithmetic with correctly rounded + - * / in round-to-nearest, no flush-to-zero (the default environment of the build)",
                  "long double (x87, 64-bit significand) and libquadmath __float128 arithmetic are correct (stress oracle)",
                  "directions are non-zero and finite, box and origin coordinates are finite; NaN / infinite inputs are outside the statement and not driven",
-                 "'on the ray to within rounding' is read as |p_j - (pos_j + t*dir_j)| <= 16*eps*(|pos_j| + |t*dir_j|) per component (worst observed ratio 1.6), plus 4 denormal quanta for results of denormal magnitude",
+                 "'on the ray to within rounding' is read as |p_j - (pos_j + t*dir_j)| <= 16*eps*(|pos_j| + |t*dir_j|) per component (worst observed ratio 1.76 over 2.8*10^9 sampled cases), plus 4 denormal quanta for results of denormal magnitude",
                  "stress part: 'moderate' box coordinates are |c| <= 10; a hit/miss verdict is only given when the exact decision has relative margin > 1e-4 in the ray parameter"],
     technique=("exhaustive execution over two finite lattices with an exact rational (int64) slab-test oracle and == comparison of all outputs; class-directed sampling of a wider "
                "lattice with the same oracle; class-directed float stress inputs against a long double / __float128 slab test with a robustness margin; ASan/UBSan on a sampled sweep"),
